@@ -69,9 +69,9 @@ def a_coulomb(mp, a, P):
 AX = lambda p: [t for t in args_real(p, 'R', 7) if t[2] + t[3] > -40][::2] + [R(-30), R(-100), R(50)]
 TABLE = [
     dict(fn='besselj', args=pairs(ORD, XB), budget=30),
-    dict(fn='bessely', args=pairs(ORD, lambda p: [x for x in XB(p) if x != R(0)]), anchors=[('J Y\' - J\' Y = 2/(pi x)', a_wronsk_jy)], budget=30),
+    dict(fn='bessely', args=pairs(ORD, lambda p: [x for x in XB(p) if x != R(0)]), anchors=[('J Y\' - J\' Y = 2/(pi x)', a_wronsk_jy)], budget=30, maxprec=113),
     dict(fn='besseli', args=pairs(ORD, XB), budget=30),
-    dict(fn='besselk', args=pairs(ORD, XB), anchors=[('I K_{v+1} + I_{v+1} K = 1/x', a_wronsk_ik)], budget=30),
+    dict(fn='besselk', args=pairs(ORD, XB), anchors=[('I K_{v+1} + I_{v+1} K = 1/x', a_wronsk_ik)], budget=30, maxprec=113),
     dict(fn='hankel1', args=pairs(ORD_S, XS), anchors=[('H1 = J + iY', a_hankel)], budget=30),
     dict(fn='hankel2', args=pairs(ORD_S, XS), budget=30),
     dict(fn='airyai', args=one(lambda p: AX(p) + args_complex(p, 'C', 3)[::2]), anchors=[('Ai Bi\' - Ai\' Bi = 1/pi', a_airy)]),
@@ -86,8 +86,8 @@ TABLE = [
     dict(fn='kei', args=pairs(lambda p: [R(0), R(1), R(5, 2)], lambda p: [R(1, 2), R(5, 2), R(10), R(30)]), budget=30),
     dict(fn='scorergi', args=one(lambda p: [R(1, 2), R(5, 2), R(10), R(-5, 2), R(-20), (R(1), R(1))]), budget=30),
     dict(fn='scorerhi', args=one(lambda p: [R(1, 2), R(5, 2), R(-5, 2), R(-20), (R(1), R(1))]), budget=30),
-    dict(fn='coulombf', args=lambda p: [(l, e, z) for l in (R(0), R(2), R(1, 2)) for e in (R(1, 2), R(-1), R(0)) for z in (R(1, 2), R(7, 2), R(20))], anchors=[('F\' G - F G\' = 1', a_coulomb)], budget=40, ascending=True),
-    dict(fn='coulombg', args=lambda p: [(l, e, z) for l in (R(0), R(2), R(1, 2)) for e in (R(1, 2), R(-1), R(0)) for z in (R(1, 2), R(7, 2), R(20))], budget=40, ascending=True),
+    dict(fn='coulombf', args=lambda p: [(l, e, z) for l in (R(0), R(2), R(1, 2)) for e in (R(1, 2), R(-1), R(0)) for z in (R(1, 2), R(7, 2), R(20))], anchors=[('F\' G - F G\' = 1', a_coulomb)], budget=40, ascending=True, maxprec=113),
+    dict(fn='coulombg', args=lambda p: [(l, e, z) for l in (R(0), R(2), R(1, 2)) for e in (R(1, 2), R(-1), R(0)) for z in (R(1, 2), R(7, 2), R(20))], budget=40, ascending=True, maxprec=113),
     dict(fn='angerj', args=pairs(lambda p: [R(0), R(3, 2), R(2), R(-1, 4)], XS), budget=30),
     dict(fn='webere', args=pairs(lambda p: [R(0), R(3, 2), R(2), R(-1, 4)], XS), budget=30),
     dict(fn='lommels1', args=lambda p: [(u, v, z) for u in (R(1, 2), R(2)) for v in (R(1, 4), R(1)) for z in (R(3, 2), R(10))], budget=40),
